@@ -362,17 +362,14 @@ impl<T> Queue<T> {
                 return SmallVec::new();
             }
 
-            let new_id = if !std::ptr::eq(block, tail_block) {
-                0
-            } else {
-                push_id
-            };
-
-            let new_head = if new_id == 0 {
-                (head as usize | (1 << 63)) as *mut BlockNode<T>
-            } else {
-                BlockPtr::pack(block, new_id)
-            };
+            // what was read above may belong to an earlier life of this block: it can
+            // have been freed and allocated again at the same address while we were not
+            // running (ABA), with the head back at the same index. A range worked out
+            // from those values could reach beyond what the owner has pushed, we would
+            // wait for pushes that may never come while holding the tasks in front of
+            // them. So only lock the head here (bit 63 keeps the other takers out) and
+            // work out the range once the CAS has shown that the head is at this position
+            let new_head = (head as usize | (1 << 63)) as *mut BlockNode<T>;
 
             let block = unsafe { &mut *block };
             #[cfg(may_verif)]
@@ -390,33 +387,22 @@ impl<T> Queue<T> {
                     let block_start = block.start.load(Ordering::Relaxed);
                     let pop_index = block_start + id;
 
-                    let end;
+                    #[cfg(may_verif)]
+                    crate::verif::point(crate::verif::site::SPMC_BULK_LAST, self as *const _ as usize);
+                    push_index = self.tail.index.load(Ordering::Acquire);
+                    if pop_index >= push_index {
+                        // recover the old head, and return None
+                        self.head.0.store(head, Ordering::Release);
+                        return SmallVec::new();
+                    }
+                    let end = std::cmp::min(block_start + BLOCK_SIZE, push_index);
+                    let new_id = end & BLOCK_MASK;
                     if new_id == 0 {
-                        #[cfg(may_verif)]
-                        crate::verif::point(crate::verif::site::SPMC_BULK_LAST, self as *const _ as usize);
-                        push_index = self.tail.index.load(Ordering::Acquire);
-                        if pop_index >= push_index {
-                            // recover the old head, and return None
-                            self.head.0.store(head, Ordering::Release);
-                            return SmallVec::new();
-                        }
-                        end = std::cmp::min(block_start + BLOCK_SIZE, push_index);
-                        let new_id = end & BLOCK_MASK;
-                        if new_id == 0 {
-                            let next = block.next.load(Ordering::Acquire);
-                            self.head.0.store(next, Ordering::Release);
-                        } else {
-                            let new_head = BlockPtr::pack(block, new_id);
-                            self.head.0.store(new_head, Ordering::Release);
-                        }
+                        let next = block.next.load(Ordering::Acquire);
+                        self.head.0.store(next, Ordering::Release);
                     } else {
-                        end = block_start + new_id;
-                        // we have to wait there is enough data, normally this would not happen
-                        // except for the ABA situation
-                        // if no any more data pushed, this will be a dead loop
-                        while end > self.tail.index.load(Ordering::Acquire) {
-                            std::thread::sleep(std::time::Duration::from_millis(10));
-                        }
+                        let new_head = BlockPtr::pack(block, new_id);
+                        self.head.0.store(new_head, Ordering::Release);
                     }
 
                     // get the data
